@@ -446,7 +446,10 @@ def _strip_comments(t):
 
 
 def extract_loopfn(repo, ent):
-    if ent.get('header'):
+    if ent.get('_text') is not None:
+        # second pass over already generated text (an enclosing loop of the one handled first)
+        f = {'text': ent['_text'], 'first_line': ent['_first_line'], 'last_line': ent['_last_line'], 'sha256': ent['_sha256']}
+    elif ent.get('header'):
         # a statement region of a larger function, wrapped (mechanically) into a function of its own:
         # "header" is supplied by the unit, the body is the verbatim region
         if ent.get('region_braced'):
@@ -458,11 +461,11 @@ def extract_loopfn(repo, ent):
     else:
         f = extract_entity(repo, dict(ent, kind='func'))
     text = f['text']
-    for r in ent.get('pre_rewrites', []):
+    for r in ([] if ent.get('_text') is not None else ent.get('pre_rewrites', [])):
         text, n = re.subn(r['pattern'], r['repl'], text, flags=re.M)
         if n != r['count']:
             raise ExtractError('pre-rewrite %s fired %d times, must fire exactly %d' % (r['id'], n, r['count']))
-    ob = _find_open_brace(text, text.index(re.search(ent['start'], text, flags=re.M).group(0)) if not ent.get('header') else 0)
+    ob = _find_open_brace(text, text.index(re.search(ent['start'], text, flags=re.M).group(0)) if not (ent.get('header') and ent.get('_text') is None) else 0)
     header = text[:ob]
     inner = text[ob + 1:text.rindex('}')]
     hits = [m for m in re.finditer(ent['loop_start'], inner, flags=re.M)]
@@ -509,14 +512,20 @@ def extract_loopfn(repo, ent):
     body2 = _rewrite_jumps(body, sfx)
     name = ent['name']
     name_rx = r'(?<![\w])%s(?![\w])' % re.escape(name)
-    if len(re.findall(name_rx, header)) != 1:
-        raise ExtractError('function name %s not found exactly once in its header' % name)
-    header2 = re.sub(name_rx, lambda m: name + '__lc', header)
+    if ent.get('_text') is not None:
+        header2 = header           # already renamed by the first pass
+    else:
+        if len(re.findall(name_rx, header)) != 1:
+            raise ExtractError('function name %s not found exactly once in its header' % name)
+        header2 = re.sub(name_rx, lambda m: name + '__lc', header)
+    PH = ent.get('phase_var', 'gh_lc_phase')
     P = ent.get('macro_prefix', 'LC')
     line0 = f['first_line']
     src = os.path.join(repo, ent['file'])
 
     def ln(off_text):
+        if ent.get('_text') is not None:
+            return ''          # the pieces carry the #line directives of the first pass
         return '#line %d "%s"\n' % (line0 + text[:text.index(off_text)].count('\n') if off_text in text else line0, src)
     g = []
     g.append(ln(header) + header2 + '{\n')
@@ -546,7 +555,7 @@ def extract_loopfn(repo, ent):
             g.append('    { bool lc_more = (' + cond.strip() + '); __CPROVER_assert(!lc_more, "unwinding assertion: loop needs more than %d iterations"); __CPROVER_assume(!lc_more); }\n' % int(K))
     elif k == 'do':
         g.append('    %s_AT_ENTRY;\n' % P)
-        g.append('    if (gh_lc_phase == 0) { __CPROVER_assert(%s_INV, "loop invariant holds on entry (base case)"); __CPROVER_assume(0); }\n' % P)
+        g.append('    if (%s == 0) { __CPROVER_assert(%s_INV, "loop invariant holds on entry (base case)"); __CPROVER_assume(0); }\n' % (PH, P))
         g.append('    %s_HAVOC; __CPROVER_assume(%s_INV);\n' % (P, P))
         g.append('    { %s_FRAME_SNAPSHOT; unsigned long lc_decr_before = (%s_DECR);\n' % (P, P))
         g.append(ln(body) + body2 + '\n')
@@ -561,7 +570,7 @@ def extract_loopfn(repo, ent):
         if init.strip():
             g.append(ln(init) + '    ' + init.strip() + ';\n')
         g.append('    %s_AT_ENTRY;\n' % P)
-        g.append('    if (gh_lc_phase == 0) { __CPROVER_assert(%s_INV, "loop invariant holds on entry (base case)"); __CPROVER_assume(0); }\n' % P)
+        g.append('    if (%s == 0) { __CPROVER_assert(%s_INV, "loop invariant holds on entry (base case)"); __CPROVER_assume(0); }\n' % (PH, P))
         g.append('    %s_HAVOC; __CPROVER_assume(%s_INV);\n' % (P, P))
         g.append('    %s_FRAME_SNAPSHOT; unsigned long lc_decr_before = (%s_DECR); // before COND: it may have side effects\n' % (P, P))
         g.append(ln(cond) + '    if (' + cond.strip() + ')\n')
@@ -596,8 +605,14 @@ def extract_loopfn(repo, ent):
     pieces = {'header': header, 'pre': pre, 'init': init, 'cond': cond, 'incr': incr, 'body': body, 'post': post}
     if ''.join([header, '{', pre]) not in text:
         raise ExtractError('internal: split does not reassemble')
+    guards = list(ent.get('_guards', [])) + ([] if ent.get('unroll') else [{'macro_prefix': P, 'assigned': assigned}])
+    if ent.get('outer_loop'):
+        o = ent['outer_loop']
+        return extract_loopfn(repo, dict(o, id=ent['id'], file=ent['file'], name=name, start=re.escape(name + '__lc'),
+                                         _text=gen, _first_line=f['first_line'], _last_line=f['last_line'], _sha256=f['sha256'],
+                                         _guards=guards, _pre=ent.get('pre_rewrites', []), header=ent.get('header')))
     return {
-        'id': ent['id'], 'file': ent['file'], 'kind': 'loopfn',
+        'id': ent['id'], 'file': ent['file'], 'kind': 'loopfn', 'loop_guards': guards,
         'first_line': f['first_line'], 'last_line': f['last_line'],
         'sha256': f['sha256'], 'text': gen, 'no_line_directive': True,
         'pre_rewrites': [{'id': r['id'], 'count': r['count'], 'pattern': r['pattern'], 'repl': r['repl'], 'why': r.get('why', '')} for r in ent.get('pre_rewrites', [])],
